@@ -8,6 +8,7 @@ from typing_extensions import override
 from .decodestate import DecodeState
 from .diagcodedtype import DctType, DiagCodedType
 from .encodestate import EncodeState
+from .encoding import get_string_encoding
 from .exceptions import EncodeError, odxraise, odxrequire
 from .odxlink import OdxDocFragment, OdxLinkDatabase, OdxLinkId, OdxLinkRef
 from .odxtypes import AtomicOdxType, DataType
@@ -65,14 +66,18 @@ class ParamLengthInfoType(DiagCodedType):
             # the length key is implicit, i.e., we need to set the
             # value for the length key in the encode_state based on
             # the value passed here.
-            if self.base_data_type in [
-                    DataType.A_BYTEFIELD,
+            if self.base_data_type == DataType.A_BYTEFIELD:
+                bit_length = 8 * len(cast(bytes, internal_value))
+            elif self.base_data_type in [
                     DataType.A_ASCIISTRING,
                     DataType.A_UTF8STRING,
+                    DataType.A_UNICODE2STRING,
             ]:
-                bit_length = 8 * len(cast(str, internal_value))
-            elif self.base_data_type in [DataType.A_UNICODE2STRING]:
-                bit_length = 16 * len(cast(str, internal_value))
+                # the length is the number of bytes of the encoded
+                # string, not its number of characters
+                str_encoding = get_string_encoding(self.base_data_type, self.base_type_encoding,
+                                                   self.is_highlow_byte_order)
+                bit_length = 8 * len(cast(str, internal_value).encode(odxrequire(str_encoding)))
             elif self.base_data_type in [DataType.A_INT32, DataType.A_UINT32]:
                 bit_length = int(internal_value).bit_length()
                 if self.base_data_type == DataType.A_INT32:
